@@ -14,7 +14,11 @@ CHECKS = {
               "weakest-precondition style VCs discharged with z3, equal to the spec function written from the "
               "property statement, for every finite map, every platform argument and every iteration order "
               "(loops cut by sum-over-seen-set invariants; no bound). Symmetry, zero diagonal, ranges, scale "
-              "invariance and avg-of-one are proved as lemmas over the same spec functions."),
+              "invariance and avg-of-one are proved as lemmas over the same spec functions. The spec functions were "
+              "re-derived from the statement after a review found three clauses copied from the code (empty selection, NaN "
+              "cases, distance of two empty line sets); three defects found that way were fixed in /repo. Floating-point "
+              "range and order-independence (one division of integer sums, sorted platforms) are outside the real-number "
+              "model and are checked natively: exactly, and under 8 hash seeds in C14."),
         design_ref="DESIGN.md section 5 C07, section 9",
         note=("A1 Python-subset semantics of the generator; A2 floats are exact reals + NaN; A10 finite-set/big-sum "
               "axioms (Mathlib transcriptions); A11 z3; itertools.combinations modelled as 'each 2-subset once'. "
@@ -123,12 +127,13 @@ CHECKS["C08"] = dict(
 )
 CHECKS["C09"] = dict(
     category="proof",
-    text=("CodeBase.__contains__ is proved to return the membership formula evaluated on the RESOLVED path (exists, not a "
-          "directory, recognised suffix, below a code-base directory, not matched relative to the first such directory) - "
-          "hence independent of spelling and links - and CodeBase.__iter__ to yield exactly the members found below the "
-          "directories; the suffix table is checked against FileLanguage's. The gitignore semantics of the matcher is "
-          "pathspec's (assumed, NOT claimed); a native run compares it with `git check-ignore` on random trees (bounded) "
-          "and reports one known divergence."),
+    text=("CodeBase.__contains__ is proved to return the membership formula: the path AS SPELLED names an existing file and "
+          "its RESOLVED path is not a directory, has a recognised suffix, lies below a code-base directory and is not matched "
+          "relative to the first such directory - hence independent of spelling and links - and CodeBase.__iter__ to yield "
+          "exactly the members found below the directories, never listing a path again (overlapping directories); the suffix "
+          "table is checked against FileLanguage's. The gitignore semantics of the matcher is pathspec's (assumed, NOT "
+          "claimed); a native run compares it with `git check-ignore` on random trees (bounded) and reports four known "
+          "divergences of pathspec from git."),
     design_ref="DESIGN.md section 5 C09, section 9",
     note=COMMON_NOTE + "A4 pathlib/os.path as uninterpreted relations on a static FS; A6 pathspec match_file uninterpreted.",
     technique=TECH,
